@@ -85,6 +85,19 @@ struct stop_pair
     int order = 0;    // under m: number of waiters that are about to wait (wait releases m once enqueued)
 };
 static std::vector<std::shared_ptr<stop_pair>> g_pairs;
+// a task that must act only once ANOTHER task is suspended (an interrupt aimed at a blocked task) waits on a semaphore that
+// the OS thread releases when it sees that task suspended at the wanted stage; polling this with yields from a task would
+// make the run depend on the scheduler's fairness towards the watched task, which is not what is checked here.  With a
+// budget the release also comes after that many looks (the release is then correct either way).
+struct watch
+{
+    pika::threads::detail::thread_id_type id;
+    std::shared_ptr<std::atomic<int>> stage;
+    int want;
+    std::shared_ptr<pika::counting_semaphore<>> sem;
+    int budget;    // < 0: unbounded
+};
+static std::vector<watch> g_watches;
 static void flag_setter()
 {
     std::uint64_t k = 0;
@@ -93,11 +106,22 @@ static void flag_setter()
         std::vector<std::shared_ptr<std::atomic<bool>>> todo;
         std::vector<std::shared_ptr<pika::counting_semaphore<>>> sems;
         std::vector<std::shared_ptr<stop_pair>> pairs;
+        std::vector<watch> watches;
         {
             std::lock_guard<std::mutex> l(g_flag_mtx);
             todo.swap(g_flags);
             sems.swap(g_sems);
             pairs.swap(g_pairs);
+            watches.swap(g_watches);
+        }
+        for (auto& w : watches)
+        {
+            bool there = w.stage->load() >= w.want &&
+                pika::threads::detail::get_thread_state(w.id).state() == pika::threads::detail::thread_schedule_state::suspended;
+            if (there || w.budget == 0) { w.sem->release(); continue; }
+            if (w.budget > 0) --w.budget;
+            std::lock_guard<std::mutex> l(g_flag_mtx);
+            g_watches.push_back(w);
         }
         for (auto& p : pairs)
         {
@@ -381,7 +405,7 @@ static void zoo_root(long id, std::uint64_t seed, int rounds)
     body_guard g(id);
     for (int round = 0; round < rounds; ++round)
     {
-        int scen = int(r.below(6));
+        int scen = int(r.below(7));
         if (scen == 0)
         {
             // recycling wave: one child per stack class after the other, each awaited before the next is
@@ -476,6 +500,65 @@ static void zoo_root(long id, std::uint64_t seed, int rounds)
                 t.join();
                 g.resume_();
             }
+        }
+        else if (scen == 5 && !g_no_join)    // (shared-priority: a fresh pika::thread can carry an invalid id, listed C13 finding)
+        {
+            // cancelled and carries on: the child blocks in a condition-variable wait that only an interrupt ends
+            // (wake-up with restart state `abort`), handles pika::thread_interrupted, then blocks a second time in
+            // the same phase on a semaphore, which is released only after it has been seen suspended again.  The
+            // interrupt is aimed at a suspended task only (an interrupt that hits a running task may surface in a
+            // later wait as yield_aborted: not this property).
+            struct ish
+            {
+                pika::mutex m;
+                pika::condition_variable cv;
+                pika::counting_semaphore<> go{0};
+            };
+            auto sh = std::make_shared<ish>();
+            auto stage = std::make_shared<std::atomic<int>>(0);
+            auto done = std::make_shared<pika::counting_semaphore<>>(0);
+            auto asleep1 = std::make_shared<pika::counting_semaphore<>>(0);
+            auto asleep2 = std::make_shared<pika::counting_semaphore<>>(0);
+            long cid = new_task_id();
+            pika::thread t([=] {
+                body_guard cg(cid);
+                try
+                {
+                    std::unique_lock<pika::mutex> lk(sh->m);
+                    stage->store(1);
+                    cg.pause();
+                    sh->cv.wait(lk, [] { return false; });
+                    cg.resume_();
+                    monitor("task " + std::to_string(cid) + " left a wait nobody notified");
+                }
+                catch (pika::thread_interrupted const&)
+                {
+                    cg.resume_();
+                    stage->store(2);
+                }
+                cg.pause();
+                stage->store(3);
+                sh->go.acquire();
+                cg.resume_();
+                stage->store(4);
+                done->release();
+            });
+            {
+                std::lock_guard<std::mutex> l(g_flag_mtx);
+                g_watches.push_back(watch{t.native_handle(), stage, 1, asleep1, -1});
+            }
+            g.pause();
+            asleep1->acquire();    // the child sleeps in the condition-variable wait
+            t.interrupt();
+            {
+                std::lock_guard<std::mutex> l(g_flag_mtx);
+                g_watches.push_back(watch{t.native_handle(), stage, 3, asleep2, 400});
+            }
+            asleep2->acquire();    // ... and (normally) sleeps again in the semaphore wait
+            sh->go.release();
+            t.join();
+            g.resume_();
+            if (stage->load() != 4) monitor("task " + std::to_string(cid) + " joined before its body finished");
         }
         else
         {
